@@ -4,37 +4,27 @@ C11 — A crash at any point never loses snapshot state that was already written
 Model: `SerfModel.Snapshot` — the snapshotter emits its file-system operations
 (`FsOp`, with the bufio behaviour), `FS.crashAt ops k cut` is the directory after a
 process crash just before operation `k` (with `cut` bytes of a write already on
-disk), `recover` is what NewSnapshotter's replay reads from it.
+disk), `recover` is what NewSnapshotter reads at the next start: since 1e1bbff it moves
+`path.compact` into place when `path` is missing, since 01e715c replay cuts an
+unterminated last line off the file (`Snap.openOn` emits the `rename` / `truncate`).
 
-FULL STATEMENT (DESIGN 7 C11) — does NOT hold for the code, two recorded findings:
-
-  theorem C11_crash_safe (ord) (mc) (evs) (k cut) :
-      ∃ j, lastFullyWritten ops k ≤ j ∧ recover (FS.crashAt {} ops k cut) = memStateAfter evs j
-  (a) `crash-between-remove-and-rename`: in `compact()` the old snapshot is removed before the
-      new one is renamed into place; a crash in between leaves NO snapshot file, the restart
-      creates an empty one (`C11_window_counterexample`, confirmed on the real code at every
-      compaction of every generated life);
-  (b) `torn-tail-append`: a crash inside a write leaves an unterminated last line; replay
-      ignores it (fine: `C11_torn_tail_ignored`) but the next life appends right after it,
-      so the first line it writes is glued to the fragment and lost at the following
-      restart (`C11_torn_tail_append_counterexample`, confirmed on the real code).
-
-PROVED (all for every history, threshold, flush timing and map-order oracle):
-  * `C11_never_missing_partial` — at EVERY crash point of EVERY life after the first open, the
-    snapshot file exists, EXCEPT in the remove..rename window, and there `path.compact`
-    exists (so the repair "if path is missing and path.compact exists, rename it into place"
-    is always applicable): the hypothesis-free form of the statement's "in particular a crash
-    never leaves a node with no snapshot" with exactly the window excluded;
+PROVED (every history, threshold, flush timing, map-order oracle, crash point):
+  * `C11_never_missing` — at EVERY crash point of EVERY life after the first open there is a
+    snapshot to recover from: `path`, or — in compact()'s remove..rename window — `path.compact`,
+    which the start-up recovery moves into place;
+  * `C11_compaction_crash_points` — at every crash point of a compaction (window included) the
+    restart reads the old file, the old file with the flushed buffer, or the COMPLETE compacted
+    file; with C10's invariant these replay to an earlier and to the current in-memory state;
   * `C11_torn_tail_ignored`, `C11_cut_recovers_line_prefix_partial` — a write cut at ANY byte
-    recovers the effect of a PREFIX of the lines being written (never garbage, never a
-    later line without an earlier one);
-  * together with C10's invariant (`C10_append_preserves_partial`, `C10_compact_restores_partial`):
-    before a write the file replays to an earlier in-memory state, after it to the current one.
-NOT PROVED: the single whole-history statement `C11_crash_safe_partial` that combines these
-(recovered state = in-memory state after some event prefix j ≥ last fully written, outside the
-window and without a later append on a torn tail).  The correspondence check compares, at every
-operation index and cut of every generated life, what the real NewSnapshotter recovers with
-`recover (FS.crashAt …)` of the model, and the monitor judges the real recoveries.
+    recovers the effect of a PREFIX of the lines being written;
+  * `C11_torn_tail_truncated` — the next start cuts the fragment off, so the next life appends
+    to a newline-terminated file (the C10 invariant's `endsNL` premise holds again).
+Regression witnesses for the code BEFORE the two fixes (`Shape.old`), by `decide`:
+`C11_window_counterexample_oldshape`, `C11_torn_tail_append_counterexample_oldshape`; the same
+scenarios on the current shape: `C11_window_recovers`, `C11_torn_tail_append_fixed`.
+NOT PROVED: the single whole-history statement `C11_crash_safe` (recovered state = in-memory
+state after some event prefix j ≥ last fully written); it is checked at every operation index and
+cut of every generated life against the real NewSnapshotter.
 -/
 import SerfProofs.Lemmas.SnapshotCrash
 namespace SerfProofs.C11
@@ -55,11 +45,11 @@ theorem C11_cut_recovers_line_prefix_partial (rj : Bool) (ls : List Line) (hls :
 
 example : ∀ l ∈ [Line.alive ['a'] ['1'], .clock 2], WFLine l := by decide
 
-/-- **Never missing, except in the remove..rename window.** For every life (fresh directory,
-any events incl. leave, any threshold/map order) and every crash point `k ≥ 1` (after the
-first open) of its operation list: the snapshot file exists, or it does not and
-`path.compact` exists. -/
-theorem C11_never_missing_partial (ord : Order) (rj : Bool) (mc : Nat) (evs : List Ev) (clk : Nat) (k : Nat)
+/-- **Never missing.** For every life (fresh directory, any events incl. leave, any
+threshold/map order) and every crash point `k ≥ 1` (after the first open) of its operation
+list: the snapshot file exists, or it does not and `path.compact` exists — which the start-up
+recovery (`recover`, `Snap.openOn`) moves into place. -/
+theorem C11_never_missing (ord : Order) (rj : Bool) (mc : Nat) (evs : List Ev) (clk : Nat) (k : Nat)
     (hk : 1 ≤ k) :
     CrashOK (FS.applyAll {} ((life ord rj mc {} evs clk).2.take k)) := by
   rw [life_fresh_snd]
@@ -75,32 +65,55 @@ theorem C11_never_missing_partial (ord : Order) (rj : Bool) (mc : Nat) (evs : Li
   have hfs : ((({} : FS).applyAll [FsOp.openAppend .main]).main).isSome = true := by decide
   exact (hsafe _ hfs).1 _
 
-/-! ### the findings -/
+/-- **Every crash point of a compaction** (the window between remove and rename included):
+the restart reads the old snapshot, the old snapshot with the flushed buffer, or the complete
+compacted file. -/
+theorem C11_compaction_crash_points (ord : Order) (s : Snap) (fs : FS) (d : Bytes) (hd : fs.main = some d) (k : Nat)
+    (rj : Bool) :
+    recover rj (fs.applyAll ((compact ord s).2.take k)) = replay rj d ∨
+    recover rj (fs.applyAll ((compact ord s).2.take k)) = replay rj (d ++ s.buf) ∨
+    recover rj (fs.applyAll ((compact ord s).2.take k)) = replay rj (compactLines ord s).flatten := by
+  rw [recover_eq_recoverFile]
+  rcases compact_crash_points ord s fs d hd k with h | h | h
+  · left; rw [h]
+  · right; left; rw [h]
+  · right; right; rw [h]
+
+/-- **A torn tail is cut off at the next start.** -/
+theorem C11_torn_tail_truncated (rj : Bool) (mc : Nat) (x p : Bytes) (hx : endsNL x = true) (hp : '\n' ∉ p) (hne : p ≠ [])
+    (fs : FS) (hfs : fs.main = some (x ++ p)) :
+    (fs.applyAll (Snap.openOn rj mc fs).2).main = some x ∧ (Snap.openOn rj mc fs).1.offset = x.length :=
+  openOn_truncates rj mc x p hx hp hne fs hfs
+
+/-! ### the former findings: witnesses for the old code, and the same scenarios now -/
 
 /-- join of `a`, then a compaction; operations as they reach the OS -/
 def cexOps : List FsOp := osOps (life Order.id false 0 {} [.join [(['a'], ['1', ':', '2'])] 2, .forceCompact] 2).2
 
-/-- **Finding `crash-between-remove-and-rename`**: crash just before operation 9 (the rename):
-the member had been written and synced (it is in `path.compact`), the snapshot file is gone,
-the restart recovers nothing — while a crash one operation earlier or later recovers it. -/
-theorem C11_window_counterexample :
+/-- **Before 1e1bbff** (`Shape.old`: no start-up recovery of path.compact): a crash just before
+operation 9 (the rename) recovers nothing although the member was written and synced. -/
+theorem C11_window_counterexample_oldshape :
     (FS.crashAt {} cexOps 9 0).main = none ∧ (FS.crashAt {} cexOps 9 0).tmp.isSome = true ∧
-    (recover false (FS.crashAt {} cexOps 9 0)).alive = [] ∧
-    (recover false (FS.crashAt {} cexOps 8 0)).alive = [(['a'], ['1', ':', '2'])] ∧
-    (recover false (FS.crashAt {} cexOps 10 0)).alive = [(['a'], ['1', ':', '2'])] := by decide
+    (recover false (FS.crashAt {} cexOps 9 0) Shape.old).alive = [] ∧
+    (recover false (FS.crashAt {} cexOps 8 0) Shape.old).alive = [(['a'], ['1', ':', '2'])] := by decide
+
+/-- **Now**: the same crash recovers the member, as does every other crash point after the join was written. -/
+theorem C11_window_recovers :
+    ∀ k ∈ [2, 3, 4, 5, 6, 7, 8, 9, 10, 11, 12, 13], (recover false (FS.crashAt {} cexOps k 0)).alive = [(['a'], ['1', ':', '2'])] := by decide
 
 /-- the directory after a crash that cut the line of member `t` in the middle -/
 def tornFS : FS := { main := some (printLine (.alive ['a'] ['1', ':', '2']) ++ (printLine (.alive ['t'] ['3', ':', '4'])).take 9) }
 
-/-- one more life on it: join of `z`, shutdown -/
-def tornLife : Snap × List FsOp := life Order.id false 131072 tornFS [.join [(['z'], ['5', ':', '6'])] 1] 1
+/-- one more life on it: join of `z`, shutdown (`sh` = which start-up repairs the code has) -/
+def tornLife (sh : Shape) : Snap × List FsOp := life Order.id false 131072 tornFS [.join [(['z'], ['5', ':', '6'])] 1] 1 sh
 
-/-- **Finding `torn-tail-append`**: the restart after the crash recovers `a` (the torn line is
-ignored), the node then learns `z` (in memory: `a` and `z`), but the next restart does not
-recover `z`: its line was appended to the torn fragment. -/
-theorem C11_torn_tail_append_counterexample :
-    (recover false tornFS).alive = [(['a'], ['1', ':', '2'])] ∧
-    tornLife.1.alive = [(['a'], ['1', ':', '2']), (['z'], ['5', ':', '6'])] ∧
-    alookup (recover false (tornFS.applyAll tornLife.2)).alive ['z'] = none := by decide
+/-- **Before 01e715c**: `z` is appended to the torn fragment and is not recovered by the next restart. -/
+theorem C11_torn_tail_append_counterexample_oldshape :
+    (tornLife Shape.old).1.alive = [(['a'], ['1', ':', '2']), (['z'], ['5', ':', '6'])] ∧
+    alookup (recover false (tornFS.applyAll (tornLife Shape.old).2) Shape.old).alive ['z'] = none := by decide
+
+/-- **Now**: the fragment is truncated at start-up and `z` is recovered. -/
+theorem C11_torn_tail_append_fixed :
+    (recover false (tornFS.applyAll (tornLife {}).2)).alive = [(['a'], ['1', ':', '2']), (['z'], ['5', ':', '6'])] := by decide
 
 end SerfProofs.C11
